@@ -613,23 +613,35 @@ func c19Close(c *Ctx) {
 									// the value swapped in marks "watching": it must differ from the zero the guard tests for
 									marks := false
 									if args := call.Call.Args; len(args) >= 2 {
-										if k, isC := args[len(args)-1].(*ssa.Const); isC && k.Value != nil && constant.Sign(k.Value) != 0 {
-											marks = true
+										if k, isC := args[len(args)-1].(*ssa.Const); isC && k.Value != nil {
+											switch k.Value.Kind() {
+											case constant.Bool:
+												marks = constant.BoolVal(k.Value)
+											case constant.Int, constant.Float:
+												marks = constant.Sign(k.Value) != 0
+											}
 										}
 									}
 									if marks && an.InstrDominates(call, deferInstr) {
 										// the branch on its result leads to a panic on one side
+										panics := func(ifi *ssa.If) {
+											for _, s := range ifi.Block().Succs {
+												if len(s.Instrs) > 0 {
+													if _, isPanic := s.Instrs[len(s.Instrs)-1].(*ssa.Panic); isPanic && !s.Dominates(deferInstr.Block()) {
+														guarded = true
+													}
+												}
+											}
+										}
 										for _, r := range *call.Referrers() {
-											if bo, ok := r.(*ssa.BinOp); ok {
-												for _, rr := range *bo.Referrers() {
+											switch x := r.(type) {
+											case *ssa.If:
+												// atomic.Bool.Swap(true): the old value is the condition
+												panics(x)
+											case *ssa.BinOp:
+												for _, rr := range *x.Referrers() {
 													if ifi, ok := rr.(*ssa.If); ok {
-														for _, s := range ifi.Block().Succs {
-															if len(s.Instrs) > 0 {
-																if _, isPanic := s.Instrs[len(s.Instrs)-1].(*ssa.Panic); isPanic && !s.Dominates(deferInstr.Block()) {
-																	guarded = true
-																}
-															}
-														}
+														panics(ifi)
 													}
 												}
 											}
